@@ -30,7 +30,7 @@ ACT_BOUND = 6
 
 
 # --------------------------------------------------------------------------- generators
-MAXLEN = [4000]    # longest hostile TLV length (65535 in the thorough tier: such a case costs seconds in the list based model)
+MAXLEN = [3000]    # longest hostile TLV length (65535 in the thorough tier: such a case costs seconds in the list based model)
 
 def rbytes(rng, n):
     return bytes(rng.randrange(256) for _ in range(n))
@@ -47,7 +47,7 @@ def gen_tlvs(rng, room):
             t = rng.choice([1, 2])
             ln = rng.choice([3, 3, 3, 3, 0, 1, 2, 4, 5, 255])
             if ln == 255:
-                out += bytes([t, 255]) + struct.pack(">H", rng.choice([3, 0, 300, 65535]))
+                out += bytes([t, 255]) + struct.pack(">H", rng.choice([3, 0, 300, MAXLEN[0]]))
                 out += rbytes(rng, 3)
             else:
                 v = bytes([rng.choice([rng.randrange(256), (room // 8) << 4 & 0xF0 | rng.randrange(8)]),
@@ -365,7 +365,7 @@ def run(ck):
     rng = ck.rng
     R = Runner(ck)
     T = ck.thorough
-    MAXLEN[0] = 65535 if T else 4000
+    MAXLEN[0] = 65535 if T else 3000
     gens = [("t2", gen_t2, 2 * BOUND["t2"] + 10), ("t1", gen_t1, 200), ("t3", gen_t3, 2 * BOUND["t3"] + 10), ("t4", gen_t4, 3000)]
     n_img = 900 if T else 170
     for kind, gen, budget in gens:
